@@ -16,8 +16,12 @@ func wr(p unsafe.Pointer) { vsched.Point(vsched.OpAtomic, uintptr(p)) }
 // "publish, then finish the job" window could never be entered by another thread.
 func post(p unsafe.Pointer) { vsched.Point(vsched.OpAtomic, uintptr(p)) }
 
-func LoadInt32(p *int32) int32          { rd(unsafe.Pointer(p)); return ra.LoadInt32(p) }
-func StoreInt32(p *int32, v int32)      { wr(unsafe.Pointer(p)); ra.StoreInt32(p, v); post(unsafe.Pointer(p)) }
+func LoadInt32(p *int32) int32 { rd(unsafe.Pointer(p)); return ra.LoadInt32(p) }
+func StoreInt32(p *int32, v int32) {
+	wr(unsafe.Pointer(p))
+	ra.StoreInt32(p, v)
+	post(unsafe.Pointer(p))
+}
 func AddInt32(p *int32, d int32) int32  { wr(unsafe.Pointer(p)); return ra.AddInt32(p, d) }
 func SwapInt32(p *int32, v int32) int32 { wr(unsafe.Pointer(p)); return ra.SwapInt32(p, v) }
 func CompareAndSwapInt32(p *int32, o, n int32) bool {
@@ -36,8 +40,12 @@ func (x *Int32) CompareAndSwap(o, n int32) bool {
 	return x.v.CompareAndSwap(o, n)
 }
 
-func LoadInt64(p *int64) int64          { rd(unsafe.Pointer(p)); return ra.LoadInt64(p) }
-func StoreInt64(p *int64, v int64)      { wr(unsafe.Pointer(p)); ra.StoreInt64(p, v); post(unsafe.Pointer(p)) }
+func LoadInt64(p *int64) int64 { rd(unsafe.Pointer(p)); return ra.LoadInt64(p) }
+func StoreInt64(p *int64, v int64) {
+	wr(unsafe.Pointer(p))
+	ra.StoreInt64(p, v)
+	post(unsafe.Pointer(p))
+}
 func AddInt64(p *int64, d int64) int64  { wr(unsafe.Pointer(p)); return ra.AddInt64(p, d) }
 func SwapInt64(p *int64, v int64) int64 { wr(unsafe.Pointer(p)); return ra.SwapInt64(p, v) }
 func CompareAndSwapInt64(p *int64, o, n int64) bool {
@@ -56,8 +64,12 @@ func (x *Int64) CompareAndSwap(o, n int64) bool {
 	return x.v.CompareAndSwap(o, n)
 }
 
-func LoadUint32(p *uint32) uint32           { rd(unsafe.Pointer(p)); return ra.LoadUint32(p) }
-func StoreUint32(p *uint32, v uint32)       { wr(unsafe.Pointer(p)); ra.StoreUint32(p, v); post(unsafe.Pointer(p)) }
+func LoadUint32(p *uint32) uint32 { rd(unsafe.Pointer(p)); return ra.LoadUint32(p) }
+func StoreUint32(p *uint32, v uint32) {
+	wr(unsafe.Pointer(p))
+	ra.StoreUint32(p, v)
+	post(unsafe.Pointer(p))
+}
 func AddUint32(p *uint32, d uint32) uint32  { wr(unsafe.Pointer(p)); return ra.AddUint32(p, d) }
 func SwapUint32(p *uint32, v uint32) uint32 { wr(unsafe.Pointer(p)); return ra.SwapUint32(p, v) }
 func CompareAndSwapUint32(p *uint32, o, n uint32) bool {
@@ -76,8 +88,12 @@ func (x *Uint32) CompareAndSwap(o, n uint32) bool {
 	return x.v.CompareAndSwap(o, n)
 }
 
-func LoadUint64(p *uint64) uint64           { rd(unsafe.Pointer(p)); return ra.LoadUint64(p) }
-func StoreUint64(p *uint64, v uint64)       { wr(unsafe.Pointer(p)); ra.StoreUint64(p, v); post(unsafe.Pointer(p)) }
+func LoadUint64(p *uint64) uint64 { rd(unsafe.Pointer(p)); return ra.LoadUint64(p) }
+func StoreUint64(p *uint64, v uint64) {
+	wr(unsafe.Pointer(p))
+	ra.StoreUint64(p, v)
+	post(unsafe.Pointer(p))
+}
 func AddUint64(p *uint64, d uint64) uint64  { wr(unsafe.Pointer(p)); return ra.AddUint64(p, d) }
 func SwapUint64(p *uint64, v uint64) uint64 { wr(unsafe.Pointer(p)); return ra.SwapUint64(p, v) }
 func CompareAndSwapUint64(p *uint64, o, n uint64) bool {
@@ -96,8 +112,12 @@ func (x *Uint64) CompareAndSwap(o, n uint64) bool {
 	return x.v.CompareAndSwap(o, n)
 }
 
-func LoadUintptr(p *uintptr) uintptr            { rd(unsafe.Pointer(p)); return ra.LoadUintptr(p) }
-func StoreUintptr(p *uintptr, v uintptr)        { wr(unsafe.Pointer(p)); ra.StoreUintptr(p, v); post(unsafe.Pointer(p)) }
+func LoadUintptr(p *uintptr) uintptr { rd(unsafe.Pointer(p)); return ra.LoadUintptr(p) }
+func StoreUintptr(p *uintptr, v uintptr) {
+	wr(unsafe.Pointer(p))
+	ra.StoreUintptr(p, v)
+	post(unsafe.Pointer(p))
+}
 func AddUintptr(p *uintptr, d uintptr) uintptr  { wr(unsafe.Pointer(p)); return ra.AddUintptr(p, d) }
 func SwapUintptr(p *uintptr, v uintptr) uintptr { wr(unsafe.Pointer(p)); return ra.SwapUintptr(p, v) }
 func CompareAndSwapUintptr(p *uintptr, o, n uintptr) bool {
@@ -116,8 +136,12 @@ func (x *Uintptr) CompareAndSwap(o, n uintptr) bool {
 	return x.v.CompareAndSwap(o, n)
 }
 
-func LoadPointer(p *unsafe.Pointer) unsafe.Pointer     { rd(unsafe.Pointer(p)); return ra.LoadPointer(p) }
-func StorePointer(p *unsafe.Pointer, v unsafe.Pointer) { wr(unsafe.Pointer(p)); ra.StorePointer(p, v); post(unsafe.Pointer(p)) }
+func LoadPointer(p *unsafe.Pointer) unsafe.Pointer { rd(unsafe.Pointer(p)); return ra.LoadPointer(p) }
+func StorePointer(p *unsafe.Pointer, v unsafe.Pointer) {
+	wr(unsafe.Pointer(p))
+	ra.StorePointer(p, v)
+	post(unsafe.Pointer(p))
+}
 func SwapPointer(p *unsafe.Pointer, v unsafe.Pointer) unsafe.Pointer {
 	wr(unsafe.Pointer(p))
 	return ra.SwapPointer(p, v)
